@@ -68,6 +68,9 @@ type vpC16Req struct {
 	// response is decided, bit 1 afterwards. The timeout response wins: such a hijack must never happen.
 	Hijack       int
 	HijackNoResp bool
+	// late wrapped / self: after the timeout response is decided the handler calls ctx.EarlyHints() with a
+	// Link header set - an API that writes to the connection directly
+	LateHints bool
 }
 
 type vpC16Scenario struct {
@@ -87,10 +90,10 @@ func (sc vpC16Scenario) String() string {
 		for _, q := range rs {
 			switch q.Mode {
 			case "wrapped":
-				fmt.Fprintf(&b, " [%s wrapped %s T=%dms code=%d sleep=%dus rounds=%d gap=%dus rel=+%d settle=%v own=%d hijack=%d/%v msg=%q]",
-					q.ID, q.D, q.TimeoutMs, q.Code, q.SleepUs, q.Rounds, q.GapUs, q.ReleaseOff, q.Settle, q.OwnStatus, q.Hijack, q.HijackNoResp, q.Msg)
+				fmt.Fprintf(&b, " [%s wrapped %s T=%dms code=%d sleep=%dus rounds=%d gap=%dus rel=+%d settle=%v own=%d hijack=%d/%v latehints=%v msg=%q]",
+					q.ID, q.D, q.TimeoutMs, q.Code, q.SleepUs, q.Rounds, q.GapUs, q.ReleaseOff, q.Settle, q.OwnStatus, q.Hijack, q.HijackNoResp, q.LateHints, q.Msg)
 			case "self":
-				fmt.Fprintf(&b, " [%s self %s code=%d rounds=%d gap=%dus hijack=%d/%v msg=%q]", q.ID, q.Variant, q.Code, q.Rounds, q.GapUs, q.Hijack, q.HijackNoResp, q.Msg)
+				fmt.Fprintf(&b, " [%s self %s code=%d rounds=%d gap=%dus hijack=%d/%v latehints=%v msg=%q]", q.ID, q.Variant, q.Code, q.Rounds, q.GapUs, q.Hijack, q.HijackNoResp, q.LateHints, q.Msg)
 			default:
 				fmt.Fprintf(&b, " [%s plain]", q.ID)
 			}
@@ -143,6 +146,7 @@ func vpC16Gen(t *rapid.T) vpC16Scenario {
 				if q.Hijack != 0 {
 					q.HijackNoResp = rapid.Bool().Draw(t, "hijackNoResp")
 				}
+				q.LateHints = rapid.IntRange(0, 3).Draw(t, "lateHints") == 0
 			}
 			rs = append(rs, q)
 		}
@@ -347,6 +351,10 @@ func (r *vpC16Run) mutate(ctx *RequestCtx, q vpC16Req) {
 	for n := 0; n < q.Rounds; n++ {
 		if n == 0 && q.Hijack&2 != 0 {
 			r.hijack(ctx, q)
+		}
+		if n == 0 && q.LateHints {
+			ctx.Response.Header.Add("Link", "</late-"+q.ID+">; rel=preload")
+			ctx.EarlyHints() //nolint:errcheck
 		}
 		ctx.SetStatusCode(500 + n)
 		ctx.Response.Header.Set("X-Late-"+q.ID, fmt.Sprint(n))
